@@ -182,9 +182,9 @@ class _HistStream(Stream):
             for k, f in check_history(case['start'], toks, recs, out['lvl0'], out['baseline']).items():
                 fs.setdefault(k, f)
         if out.get('stderr_logging_error'):
-            fs.setdefault('logging-error-on-stderr', Failure('logging-error-on-stderr', 'prefix %s' % case['prefix']))
+            fs.setdefault('logging-error-on-stderr', Failure('logging-error-on-stderr', 'prefix %s' % case['prefix'], literal=False))
         if file_logging_active(case['prefix']) and out.get('logsize', -1) <= 0:
-            fs.setdefault('log-file-empty', Failure('log-file-empty', 'set_up(log_file=...) with logging enabled left no record in the file'))
+            fs.setdefault('log-file-empty', Failure('log-file-empty', 'set_up(log_file=...) with logging enabled left no record in the file', literal=False))
         return list(fs.values())
 
 
